@@ -57,6 +57,11 @@ fn main() {
         let code = rv::c11::batch_main(&args.extra[0], &args.extra[1], first);
         std::process::exit(code);
     }
+    if cmd == "c12case" {
+        let k = args.extra[1].parse().unwrap_or(0);
+        let code = rv::c12::case_main(&args.extra[0], k, &args.extra[2]);
+        std::process::exit(code);
+    }
     if cmd == "selftest" {
         let mut failed = false;
         for (name, r) in rv::selftests() {
